@@ -14,9 +14,14 @@ type Value interface{}
 
 type VBV struct{ T *Term }        // bool (W==0), integers, floats (as IEEE bit pattern)
 type VCplx struct{ Re, Im *Term } // complex as two float bit patterns
+type StrAlt struct {
+	G *Term
+	S string
+}
 type VStr struct {
-	Len *Term   // BV64
-	B   []*Term // BV8, len(B) = static maximum length
+	Len  *Term    // BV64
+	B    []*Term  // BV8, len(B) = static maximum length
+	Alts []StrAlt // optional: the string is exactly one of these constants (guards exclusive); nil = unknown
 }
 type PtrAlt struct {
 	G    *Term
@@ -87,6 +92,7 @@ type NatAlt struct {
 type VNative struct{ Alts []NatAlt }
 
 type Object struct {
+	Global *ssa.Global
 	ID   int
 	Typ  types.Type // type of content
 	Name string
@@ -238,6 +244,17 @@ func (ex *Exec) merge(c *Term, a, b Value) Value {
 		return a
 	}
 	nc := ts.Not(c)
+	// nil pointers and nil natives are interchangeable
+	if _, ok := a.(*VNative); ok {
+		if p, ok := b.(*VPtr); ok && len(p.Alts) == 0 {
+			b = &VNative{}
+		}
+	}
+	if _, ok := b.(*VNative); ok {
+		if p, ok := a.(*VPtr); ok && len(p.Alts) == 0 {
+			a = &VNative{}
+		}
+	}
 	switch x := a.(type) {
 	case *VBV:
 		y := b.(*VBV)
@@ -250,6 +267,16 @@ func (ex *Exec) merge(c *Term, a, b Value) Value {
 		return &VCplx{ts.Ite(c, x.Re, y.Re), ts.Ite(c, x.Im, y.Im)}
 	case *VStr:
 		y := b.(*VStr)
+		if x.Alts != nil && y.Alts != nil {
+			var alts []StrAlt
+			for _, al := range x.Alts {
+				alts = append(alts, StrAlt{ts.And(c, al.G), al.S})
+			}
+			for _, al := range y.Alts {
+				alts = append(alts, StrAlt{ts.And(nc, al.G), al.S})
+			}
+			return ex.strFromAlts(alts)
+		}
 		n := len(x.B)
 		if len(y.B) > n {
 			n = len(y.B)
@@ -637,6 +664,17 @@ func (ex *Exec) sliceCap(s *VSlice) *Term {
 // strEq: string equality.
 func (ex *Exec) strEq(a, b *VStr) *Term {
 	ts := ex.ts
+	if a.Alts != nil && b.Alts != nil {
+		var cs []*Term
+		for _, p := range a.Alts {
+			for _, q := range b.Alts {
+				if p.S == q.S {
+					cs = append(cs, ts.And(p.G, q.G))
+				}
+			}
+		}
+		return ts.Or(cs...)
+	}
 	n := len(a.B)
 	if len(b.B) < n {
 		n = len(b.B)
@@ -651,6 +689,17 @@ func (ex *Exec) strEq(a, b *VStr) *Term {
 // strLt: lexicographic byte-wise a < b.
 func (ex *Exec) strLt(a, b *VStr) *Term {
 	ts := ex.ts
+	if a.Alts != nil && b.Alts != nil {
+		var cs []*Term
+		for _, p := range a.Alts {
+			for _, q := range b.Alts {
+				if p.S < q.S {
+					cs = append(cs, ts.And(p.G, q.G))
+				}
+			}
+		}
+		return ts.Or(cs...)
+	}
 	n := len(a.B)
 	if len(b.B) > n {
 		n = len(b.B)
@@ -725,6 +774,12 @@ func (ex *Exec) valueEq(t types.Type, a, b Value) *Term {
 			return ts.Eq(a.(*VBV).T, b.(*VBV).T)
 		}
 	case *types.Pointer:
+		if _, ok := a.(*VNative); ok {
+			return ex.nativeEq(a, b)
+		}
+		if _, ok := b.(*VNative); ok {
+			return ex.nativeEq(a, b)
+		}
 		return ex.ptrEq(a.(*VPtr), b.(*VPtr))
 	case *types.Chan:
 		return ex.chanEq(a.(*VChan), b.(*VChan))
